@@ -305,7 +305,9 @@ class Session:
             v = self.prebuilt.pop(sid) if sid in self.prebuilt else self.V(step["v"])
             self.inputs[sid] = v
             T = self.T(step)
-            m = self.guarded(self.call, step, typelib.marshal, v, t=T)
+            # (a causality experiment may ask for the two halves under two spellings of the type)
+            Tm = self.world.realize(step["t_marshal"], step.get("mod")) if step.get("t_marshal") else T
+            m = self.guarded(self.call, step, typelib.marshal, v, t=Tm)
             if not m.ok:
                 return m
             self.results[("wire", sid)] = m.value
